@@ -1,10 +1,11 @@
 #!/bin/sh
-# Apply every seeded change in /verif/seeded (the rebased variant where one exists) to /repo in turn, run the
-# quick check of its property and print whether it was caught. /repo is restored after each one.
+# Apply every seeded change in /verif/seeded (round 1: seed-Cxx, round 2: seed2-Cxx-A/B; the rebased variant where one
+# exists) to a scratch copy of /repo in turn (tools/try_diff.py; /repo itself is not touched), run the quick check of
+# its property and print whether it was caught, with the first violation key.
 cd /verif
-for d in seeded/seed-*; do
-  id=$(basename $d); prop=${id#seed-}
+for d in seeded/seed-* seeded/seed2-*; do
+  id=$(basename $d); prop=$(echo $id | sed 's/seed2\?-\(C[0-9]*\).*/\1/')
   p=/verif/$d/patch.diff; [ -f /verif/$d/patch_rebased.diff ] && p=/verif/$d/patch_rebased.diff
-  out=$(tools/try_seed.sh $p $prop 2>&1)
-  if echo "$out" | grep -q "VIOLATION property=$prop"; then echo "$id caught"; else echo "$id MISSED"; echo "$out" | tail -3; fi
+  out=$(tools/try_diff.py $p $prop --slot seeds 2>&1)
+  if echo "$out" | grep -q "^$prop VIOLATION"; then echo "$id caught: $(echo "$out" | grep 'violation:' | head -1 | sed 's/.*violation: \[\([^]]*\)\].*/\1/')"; else echo "$id MISSED"; echo "$out" | tail -3; fi
 done
